@@ -131,6 +131,7 @@ def run(res, tier, seed, search):
     if search:
         nk, reps = nk * 3, reps * 2
     kernel_level(res, rng, nk)
+    dk.check_init_kernels(res, rng, 15 if tier == "quick" else 150)
     start = (seed * combos_n) % len(COMBOS)
     for i in range(combos_n):
         metric, kind = COMBOS[(start + i) % len(COMBOS)]
